@@ -12,7 +12,7 @@ STAMP="recheck $(date -u +%Y-%m-%dT%H:%MZ) verif $(git -C /verif rev-parse --sho
 if ! (cd $WT && git apply $D/patch.diff 2>/dev/null); then echo "$STAMP: patch does not apply" >> $D/confirmation.log; git -C /repo worktree remove --force $WT; exit 3; fi
 CHECKS=$(python3 -c "import json;print(' '.join(json.load(open('$D/meta.json'))['caught_by']))")
 for C in $CHECKS; do
-  (cd /verif && VERIF_REPO=$WT timeout 1800 ./run $C quick >/tmp/seedwt/$N.recheck.txt 2>&1); rc=$?
+  (cd ${VERIF_DEV:-/verif} && VERIF_REPO=$WT timeout 1800 ./run $C quick >/tmp/seedwt/$N.recheck.txt 2>&1); rc=$?
   echo "$STAMP: check $C quick exit $rc, $(grep -c '^VIOLATION' /tmp/seedwt/$N.recheck.txt) VIOLATION line(s)" >> $D/confirmation.log
 done
 git -C /repo worktree remove --force $WT
